@@ -111,3 +111,90 @@ class RoundRobin(FunctionContract):
 
 
 roundrobin = RoundRobin()
+
+
+# ------------------------------------------------------------------------------------------------ multifit (T1, with one trusted theorem)
+# number of bins first-fit uses on the sequence a[lo:hi] with a given capacity: a function of (sequence, capacity) by purity (C15)
+FF = z3.Function("FFcount", L.ISeq, L.IntS, L.IntS, L.RealS, L.IntS)
+
+
+def _sorted_of(it):
+    return getattr(it, "_multifit_sorted", None)
+
+
+class PackCount(FunctionContract):
+    """call-site contract of prtpy.pack(algorithm=first_fit, binsize=b, items=s, outputtype=BinCount) inside multifit:
+    requires no item larger than b (otherwise first-fit raises); returns FFcount(b) >= 1"""
+    target = "prtpy/packing/adaptors.py::pack"
+    tier = "T1"
+    writes_args = ()            # frame clause: pack writes none of its arguments (C15, proved by the static checker)
+
+    def apply_at_call(self, it, f, args, kwargs):
+        b, items = kwargs.get("binsize"), kwargs.get("items")
+        if not isinstance(items, SSeq) or b is None:
+            raise Unsupported("prtpy.pack called by contract with unexpected arguments")
+        B = term_of(b)
+        it.prove("multifit/call:pack/requires/no-item-larger-than-the-probed-capacity", all_items(items, lambda x, _: L.val(x) <= B), kind="pre")
+        it.assume(FF(items.arr, items.lo, items.hi, B) >= 1)
+        return SV(FF(items.arr, items.lo, items.hi, B))
+
+
+class FirstFitInMultifit(FunctionContract):
+    """first_fit.online as used at the end of multifit: its (separately proved) contract, plus nb = FFcount(binsize) by definition of FFcount"""
+    target = "prtpy/packing/first_fit.py::online"
+    tier = "T1"
+    writes_args = ()
+
+    def apply_at_call(self, it, f, args, kwargs):
+        from .packing_fit import first_fit_online
+        res = first_fit_online.apply_at_call(it, f, args, kwargs)
+        items = kwargs.get("items", args[2] if len(args) > 2 else None)
+        it.assume(res.nb == FF(items.arr, items.lo, items.hi, term_of(kwargs.get("binsize", args[1] if len(args) > 1 else None))))
+        return res
+
+
+class Multifit(FunctionContract):
+    target = "prtpy/partitioning/multifit.py::multifit"
+    tier = "T1"
+    min_obligations = 8
+    uses = [PackCount(), FirstFitInMultifit()]
+
+    def make_args(self, it, shape):
+        k = z3.Int("numbins")
+        it.assume(k >= 1)
+        items = item_seq(it)
+        T, M = tot_of(items), L.rmax(items.arr, items.lo, items.hi)
+        b, a = L.fresh("b", L.RealS), L.fresh("a", L.ISeq)
+        i, j = L.fresh("i", L.IntS), L.fresh("j", L.IntS)
+        n = items.hi - items.lo
+        it.trust("THEOREM (trusted, Coffman-Garey-Johnson 1978): first-fit on the items in DECREASING order with capacity >= max(2*sum/numbins, largest item) uses at most numbins bins")
+        decreasing_perm = z3.And(L.rbag(a, 0, n) == bag_of(items), z3.ForAll([i, j], z3.Implies(z3.And(0 <= i, i <= j, j < n), L.val(a[i]) >= L.val(a[j]))))
+        it.assume(z3.ForAll([a, b], z3.Implies(z3.And(decreasing_perm, b >= (2 * T) / z3.ToReal(k), b >= M), FF(a, 0, n, b) <= k)))
+        return {"binner": ABinner(), "numbins": SV(k), "items": items}
+
+    @staticmethod
+    def inv(c):
+        items = c.arg("items")
+        M = L.rmax(items.arr, items.lo, items.hi)
+        lo, up, k = c.t("lower_bound"), c.t("upper_bound"), c.t("numbins")
+        s = c["sorted_items"]
+        out = [("largest-item<=lower-bound(no-probe-can-raise)", M <= lo), ("largest-item<=upper-bound", M <= up),
+               ("C01:first-fit-decreasing-with-capacity-upper_bound-needs<=numbins-bins", FF(s.arr, s.lo, s.hi, up) <= k)]
+        if c.has("binsize"):          # a variant that carries the probed capacity across iterations: it, too, never drops below the largest item
+            out.append(("largest-item<=carried-capacity", M <= c.t("binsize")))
+        return out
+
+    loops = {0: LoopSpec("range(iterations)", inv.__func__, name="bisection")}
+
+    def post(self, c, kind, res):
+        if kind != "return":
+            return []
+        items, k = c.arg("items"), term_of(c.arg("numbins"))
+        if not isinstance(res, ABins):
+            return [("C01:returns-bins", z3.BoolVal(False))]
+        return [("C01:multifit-never-more-than-numbins-bins", z3.And(res.nb >= 1, res.nb <= k)),
+                ("C01:every-item-exactly-once", res.G == bag_of(items)),
+                ("C06:wf", res.wf())]
+
+
+multifit = Multifit()
